@@ -202,7 +202,8 @@ class C05(Base):
     rule = ('add/remove/set(Id)/lookup-heavy histories with pre-set IDs drawn from undefined, 0x1000, 0x1001, gaps, taken, '
             'reserved and top-of-field values, all type descriptors, track-format counters; non-trivial = distinct '
             'histories in which an add assigned or kept an ID next to an already listed element of the same kind')
-    gen_args = dict(weights=dict(add=30, setid=25, remove=10, lookup=10, addref=10, setref=6))
+    gen_args = dict(extra_ops={'collide': heapgen.EXTRA['collide']},
+                    weights=dict(add=30, setid=25, remove=10, lookup=10, addref=10, setref=6))
 
     @staticmethod
     def nontrivial(ops):
@@ -485,6 +486,49 @@ class C09(Base):
                             out.append(('copy-not-independent', '`%s` names nothing of %s but changed its content' % (op, side)))
         return out
 
+
+    @staticmethod
+    def extra(ctx, proof, found):
+        """Second batch, on libadm only: API histories that fill every settable parameter of every element and block
+        with random valid values (the C01 generator), then Document::deepCopy and an accessor-level comparison of copy
+        and original - every parameter, block, reference list (by ID) - and of the XML written from each."""
+        import vlib
+        import xmlspecs
+        n = 150 if ctx.quick() else 6000
+        hist = [xmlspecs.xml_history(ctx.rng, quick=True) for _ in range(n)]
+        hist = xmlspecs.successful_prefixes(hist)
+        cases = []
+        for c, docs in hist:
+            src = ctx.rng.choice(docs)
+            cases.append(c + ['deepcopy %s d9 7000' % src, 'cmpdocs %s d9' % src, 'end'])
+        exe = vlib.build_admdrv('plain')
+        outs = heapcheck.run_cases(exe, cases)
+
+        def verdict(lines, out):
+            ops = heapcheck.split_ops(lines, out)
+            for k, (op, r, _s) in enumerate(ops):
+                if op.startswith('cmpdocs') and not r.startswith('ok same'):
+                    prev = ops[k - 1][1] if k else ''
+                    if prev == 'ok':          # the copy succeeded and differs
+                        return '`%s` after a successful deepCopy: %s' % (op, r[:300])
+            return None
+        bad = [(k, verdict(c, o)) for k, (c, o) in enumerate(zip(cases, outs)) if verdict(c, o)]
+        filled = sum(1 for c in cases if any(l.startswith('fill ') for l in c))
+        ctx.coverage['parameter_level_copies'] = dict(histories=len(cases), with_filled_elements=filled, differing=len(bad),
+                                                      rule='xml_history (fill/fillblock/setid/common definitions) + deepcopy + cmpdocs on libadm')
+        if bad and not found:
+            k, msg = bad[0]
+
+            def fails(lines):
+                out = heapcheck.run_cases(exe, [lines], shards=1)[0]
+                return verdict(lines, out) is not None
+            tail = cases[k][-3:]
+            small = heapcheck.shrink(cases[k][:-3] + ['end'], lambda ls: fails([l for l in ls if l != 'end'] + tail))
+            small = [l for l in small if l != 'end'] + tail
+            out = heapcheck.run_cases(exe, [small], shards=1)[0]
+            ctx.violation(verdict(small, out) or msg,
+                          dict(kind='oracle', tag='copy-parameters-differ', script=small, libadm_output=out,
+                               original_case=cases[k]), tag='copy-parameters-differ')
 
 class C11(Base):
     rule = ('histories of create / add-block (undefined and explicit IDs, all five block types) / add / set(Id) / '
